@@ -86,6 +86,23 @@ Theorem C16_full_stack_all_messages_exact : forall (m : msg) (mav : bool) (d : d
   (dev_message d mav (render_msg m) = Val (op_message d mav us) <-> stray_separator m = false).
 Proof. exact contrib_refines_ops_all_iff. Qed.
 
+From VF Require Import Gen_Esr ErrTable Lexer Contrib_anybytes.
+
+(* ANY byte string: registers stay within their width; a message never gets stuck; what a successful message can do to queue and ESR *)
+Theorem C16_dev_message_preserves_regs_ok : forall d mav bytes d' out r,
+  regs_ok d -> dev_message d mav bytes = Val (d', out, r) -> regs_ok d'.
+Proof. exact dev_message_preserves_regs_ok. Qed.
+Theorem C16_dev_session_regs_ok : forall msgs d d', regs_ok d -> dev_session d msgs = Val d' -> regs_ok d'.
+Proof. exact dev_session_regs_ok. Qed.
+Theorem C16_dev_message_total : forall d mav bytes, exists r, dev_message d mav bytes = Val r.
+Proof. exact dev_message_total. Qed.
+Theorem C16_any_successful_message_exact : forall d mav bytes d' out,
+  dev_message d mav bytes = Val (d', out, None) ->
+  (exists n k, queue d' = skipn n (queue d) ++ repeat (std_error OperationComplete) k)
+  /\ (forall i, N.testbit (esr d') i = true -> N.testbit (esr d) i = true \/ i = 0)
+  /\ tst_result d' = tst_result d.
+Proof. exact any_successful_message_exact. Qed.
+
 Print Assumptions C16_stb_bits.
 Print Assumptions C16_summary_iff.
 Print Assumptions C16_stb_pure.
@@ -98,3 +115,7 @@ Print Assumptions C16_full_stack_refines.
 Print Assumptions C16_full_stack_refines_iff.
 Print Assumptions C16_full_stack_all_messages.
 Print Assumptions C16_full_stack_all_messages_exact.
+Print Assumptions C16_dev_message_preserves_regs_ok.
+Print Assumptions C16_dev_session_regs_ok.
+Print Assumptions C16_dev_message_total.
+Print Assumptions C16_any_successful_message_exact.
